@@ -50,6 +50,18 @@ CHECKS = {
          "Lean theorems: (L) the two-cursor merge/split loop of reshape, modelled on mode sizes, terminates and returns EXACTLY the requested mode sizes whenever the element counts agree (every ordered factorisation / merge, singleton modes anywhere), with at most len(target) SVD splits; permute's bubble sort ends in the requested order for every permutation, with swaps = inversions <= d(d-1)/2, and the per-swap allowances eps/d^1.5 add up to at most (sqrt(d)/2)*eps; (E) merging two neighbouring cores with row-major index arithmetic preserves the flattened tensor; absorbing size-1 cores preserves it (C08 lemma). "
          "Tie: mode sizes and the number of SVD splits / swaps observed on the real reshape / permute are compared exactly with the model; rank decisions are replayed through M-trunc; the oracle checks requested shape and ||result - dense reshape/permute|| <= 10*eps*||x|| for every enumerated factorisation, all permutations of <= 4 (5) modes, QTT shapes, tensors and operators, real and complex.",
          TB + "the eps bound of the whole pipeline needs the QR/SVD contracts and is checked by the oracle, not proved; operator branch of reshape and to_qtt/qtt_to_tens are covered by oracle only", "§5 C10"),
+ "C11": ("proof",
+         "PARTIAL BY NATURE. Lean theorems (kind E): the Phi recursions of the AMEn matrix product are the exact left/right partial contractions of <X, A·B>, and the local right-hand side `_local_AB` tested against any core V equals the global trilinear form with X's k-th core replaced by V (localAB_galerkin), the full sweep equals Σ X(i,j)·Σ_k A(i,k)B(k,j) (abxSweep_eq_dense): the local problems are the exact Galerkin projections of the exact product. "
+         "Tie: the module-level kernels of _amen.py are compared exactly with the models on integer data. The headline inequality ||y - A x|| <= C·eps·||A x|| (kind K: no convergence proof of DMRG/AMEn exists) is MONITORED, not proved: fast_matvec, dmrg_hadamard, amen_mv, amen_mm vs the exact product for orders 1..6, random and user guesses, complex for DMRG (C = 10; observed <= 0.7·eps).",
+         TB + "error bound only monitored; the inline einsums of _dmrg.py are not modelled (monitor only); QR/SVD contracts", "§5 C11"),
+ "C12": ("proof",
+         "PARTIAL BY NATURE. Lean theorems (kind E): `_compute_phi_fwd_A/bck_A/…_rhs` are the exact partial contractions of <x, A y> and <b, x>; `_LinearOp.matvec` (tensordot sequence) equals `_local_product`; Galerkin exactness: <x[k:=v], A x[k:=u]> = <v, localProduct(Φ_l, A_k, Φ_r) u> and <b, x[k:=v]> = <v, localRhs> for every position, order, rank profile and core value — the local systems AMEn solves are the exact projections of the global system. "
+         "Tie: every kernel of solvers.py (dense and banded local product, _LinearOp with and without preconditioners, phi recursions) compared exactly with the models on integer data; preconditioner blocks checked against the stated diagonal blocks. The residual inequality ||A x - b|| <= C·eps·||b|| (kind K) is MONITORED over SPD / diagonally dominant / Laplacian-like systems, all preconditioners, GMRES / BiCGSTAB / direct local solves, guesses, seeds (C = 10).",
+         TB + "residual bound only monitored (known finding for BiCGSTAB); GMRES/BiCGSTAB/torch.linalg.solve numerics outside the model; truncation/enrichment covered by M-trunc only", "§5 C12"),
+ "C13": ("proof",
+         "PARTIAL BY NATURE. Lean theorems: scalar division is exact and inverts scalar multiplication; diag(y) acts as the Hadamard product (so the system solved is y*q = x entrywise); the 3-index kernels of _division.py equal the C12 kernels on the diagonal embedding of the divisor core, hence the C12 Galerkin theorems transfer. "
+         "Tie: division kernels compared exactly with the models; ||q*y - x|| <= C·tol·||x|| (kind K) MONITORED for x/y, s/y, elementwise_divide with/without preconditioner and guess (C = 10).",
+         TB + "residual bound only monitored", "§5 C13"),
  "C15": ("proof",
          "Lean theorems: for every well-typed expression over {var, +, -, *, unary -, scalar *, scalar +, A@x} with a scalar head in {sum, dot, norm², entry, bilinear form, sums/products of those}, TT evaluation equals dense evaluation over ANY commutative ring; instantiated at dual numbers a+b·eps (carrier and operations are exactly the driver's) value AND derivative agree, i.e. every partial derivative w.r.t. every core entry of every operand equals the dense one (grad_eq_dense). "
          "Tie: random programs of depth 1..3 (also with kron, cat, pad, mprod, partial sums, slicing inside) are differentiated by torch autograd through the real torchtt (grad.grad / grad_list / watch variants) and compared EXACTLY, entry by entry, with the model's dual-number evaluation and with an independent dense autograd graph.",
